@@ -12,6 +12,7 @@ classic operator set, up to the named adapters of `ClvmModel/Spec/Ref.lean`.
 Lemmas live in `ClvmProofs/Lemmas/Ref*.lean`; this file only states the property's theorems.
 -/
 import ClvmProofs.Lemmas.RefOps
+import ClvmProofs.Lemmas.RefLoops
 import ClvmProofs.Lemmas.RefPath
 import ClvmProofs.Lemmas.RefMachine
 
@@ -140,6 +141,18 @@ theorem ref_op_eq_ash (m : Nat) (a : Val) (c : Ctr) (hw : a.wf = true) (hp : Pro
 
 theorem ref_op_eq_lsh (m : Nat) (a : Val) (c : Ctr) (hw : a.wf = true) (hp : Proper a) :
     OpAgree m (Interp.opLsh 0 m a c) (Ref.opLsh a.erase) := opLsh_agree m a c hw hp
+
+theorem ref_op_eq_sha256 (m : Nat) (a : Val) (c : Ctr) (hw : a.wf = true) (hp : Proper a) :
+    OpAgree m (Interp.opSha256 {} 0 m a c) (Ref.opSha256 a.erase) := opSha256_agree m a c hw hp
+
+theorem ref_op_eq_add (m : Nat) (a : Val) (c : Ctr) (hw : a.wf = true) (hp : Proper a) :
+    OpAgree m (Interp.opAdd {} 0 m a c) (Ref.opAdd a.erase) := opAdd_agree m a c hw hp
+
+theorem ref_op_eq_subtract (m : Nat) (a : Val) (c : Ctr) (hw : a.wf = true) (hp : Proper a) :
+    OpAgree m (Interp.opSubtract {} 0 m a c) (Ref.opSubtract a.erase) := opSubtract_agree m a c hw hp
+
+theorem ref_op_eq_multiply (m : Nat) (a : Val) (c : Ctr) (hw : a.wf = true) (hp : Proper a) :
+    OpAgree m (Interp.opMultiply {} 0 m a c) (Ref.opMultiply a.erase) := opMultiply_agree m a c hw hp
 
 /-! ### environment paths -/
 
